@@ -226,6 +226,9 @@ func c13Eval(t *fw.T, c *fw.Case) {
 	vs = append(vs, variant{"object-type-in-type-list", base + "TYPE @objRef4\n  {\"a\": 1}\nGET /zo/{q}\n  Path\n    {\n      \"q\": @name | @objRef4\n    }\n  200 any\n"})
 	vs = append(vs, variant{"empty-object-typed-any", base + "GET /zn/{q}\n  Path\n    {\n      \"q\": {} // {type: \"any\"}\n    }\n  200 any\n"})
 	vs = append(vs, variant{"empty-array-typed-any", base + "GET /zm/{q}\n  Path\n    {\n      \"q\": [] // {type: \"any\"}\n    }\n  200 any\n"})
+	vs = append(vs, variant{"path-in-parameterless-url", base + "URL /zl\n  Path\n    {\n      \"q\": 1\n    }\n  GET\n    200 any\n"})
+	vs = append(vs, variant{"path-under-method-of-parameterless-url", base + "URL /zk\n  GET\n    Path\n      {\n        \"q\": 1\n      }\n    200 any\n"})
+	vs = append(vs, variant{"two-paths-in-parameterless-url", base + "URL /zj/more\n  Path\n    {}\n  Path\n    {}\n  GET\n    200 any\n"})
 	vs = append(vs, variant{"two-path-directives", base + "GET /zu/{q}/{r}\n  Path\n    {\n      \"q\": 1\n    }\n  Path\n    {\n      \"r\": 1\n    }\n  200 any\n"})
 	// '.' and '..' are ordinary path segments: a declaration for /dotz/{id} says nothing about /dotz/./{id} or /x/../dotz/{id}
 	{
@@ -282,6 +285,10 @@ func c13EvalShared(t *fw.T, c *fw.Case) {
 	var root strings.Builder
 	root.WriteString("JSIGHT 0.3\nTYPE @pid\n  7\n")
 	var keys []string
+	if c.Index%4 == 3 {
+		c13EvalShortcuts(t, c, r)
+		return
+	}
 	byMacro := c.Index%3 == 2 // the shared text in a macro that every host pastes, instead of a file that every host includes
 	use := "INCLUDE shared.jst"
 	if byMacro {
@@ -324,4 +331,50 @@ func c13EvalShared(t *fw.T, c *fw.Case) {
 		}
 	}
 	t.Distinct(fmt.Sprintf("shared k%d method%v macro%v", k, inMethod, byMacro))
+}
+
+
+// c13EvalShortcuts: several Path directives whose body is a reference to one user type (Path / @ids).
+func c13EvalShortcuts(t *fw.T, c *fw.Case, r *xrand.Rand) {
+	k := r.Range(2, 4)
+	var sb strings.Builder
+	sb.WriteString("JSIGHT 0.3\nTYPE @ids\n{\n  \"id\": 1,\n  \"rev\": \"a\" // the revision\n}\n")
+	var keys []string
+	for i := 0; i < k; i++ {
+		fmt.Fprintf(&sb, "URL /sc%d/{id}/{rev}\n  Path\n    @ids\n  GET\n    200 any\n", i)
+		keys = append(keys, fmt.Sprintf("http GET /sc%d/{id}/{rev}", i))
+		if r.Bool() {
+			fmt.Fprintf(&sb, "GET /sc%d/{id}/{rev}/more\n  200 any\n", i)
+			keys = append(keys, fmt.Sprintf("http GET /sc%d/{id}/{rev}/more", i))
+		}
+	}
+	text := sb.String()
+	d := run.Single([]byte(text))
+	c.Docs = []run.Doc{d}
+	o := t.Exec(d)
+	t.Count("shared_path_projects")
+	if o.Outcome != run.Accepted {
+		t.Violation("valid-path-tree-rejected:shared-type:"+outcomeSig(o), fmt.Sprintf("%s\n%s", describe(o), text))
+		return
+	}
+	doc, err := jsonx.Parse(o.JSON)
+	if err != nil {
+		return
+	}
+	for _, key := range keys {
+		t.Count("path_variable_sets_checked")
+		ch := doc.Root.Get("interactions").Get(key).Get("pathVariables").Get("schema").Get("content").Get("children").Arr0()
+		if len(ch) != 2 || ch[0].Get("key").S() != "id" || ch[1].Get("key").S() != "rev" {
+			t.Violation("path-variables-differ:shared-type", fmt.Sprintf("interaction %q does not get the parameters id, rev declared through the shared type\n%s", key, text))
+			return
+		}
+	}
+	// the second Path names a type with a property that matches no segment: still a fault
+	bad := text + "TYPE @idsBad\n{\n  \"id\": 1,\n  \"nosuch\": 2\n}\nURL /scbad/{id}\n  Path\n    @idsBad\n  GET\n    200 any\n"
+	ob := t.Exec(run.Single([]byte(bad)))
+	t.Count("faulty_variants_checked")
+	if ob.Outcome != run.Rejected {
+		t.Violation("path-fault-not-rejected:shared-type-property-without-segment:"+ob.Outcome, fmt.Sprintf("%s\n%s", describe(ob), bad))
+	}
+	t.Distinct(fmt.Sprintf("shortcuts k%d", k))
 }
